@@ -167,7 +167,7 @@ def run_shard(ctx):
     def test(case):
         runner.guarded(ctx, check_case, case)
 
-    runner.drive(ctx, test, ctx.n(600, 8000))
+    runner.drive(ctx, test, ctx.n(800, 8000))
     from checks import c08_files
     c08_files.run(ctx)
 
